@@ -12,3 +12,6 @@ import SJ.Props.C18
 #print axioms SJ.Props.C18.c18_partial_eq_nan
 #print axioms SJ.Props.C18.c18_json_macro
 #print axioms SJ.Props.C18.c18_json_rules_tied
+#print axioms SJ.Props.C18.c18_partial_eq_ap
+#print axioms SJ.Props.C18.c18_partial_eq_float_ap
+#print axioms SJ.Props.C18.c18_partial_eq_ap_differs
